@@ -20,6 +20,21 @@ func init() {
 			[]string{"the initial disk state is identical for all executions of a case (dependence on the old file is C07's subject)"})
 	}
 	genCases["C08"] = c08Case
+	// a directed input of C08: the plain (uninstrumented) binary run seven times over the same sources
+	genDirected["C08"] = func(ctx *genCtx, in *DirectedInput, dir string) *genViolation {
+		distinct := map[string]bool{}
+		for rep := 0; rep < 7; rep++ {
+			d := filepath.Join(dir, fmt.Sprint("r", rep))
+			writeWorld(d, in.Versions[0])
+			runGoderive(ctx.bins.plain, filepath.Join(d, "p"), []string{"."}, nil, 0)
+			distinct[derivedFiles(d)["p/derived.gen.go"]] = true
+			os.RemoveAll(d)
+		}
+		if len(distinct) > 1 {
+			return &genViolation{Clause: "bytes-differ", Detail: fmt.Sprintf("the uninstrumented goderive wrote %d different derived.gen.go files in 7 runs over the same sources", len(distinct)), Facts: map[string]string{}}
+		}
+		return nil
+	}
 }
 
 type invocation struct {
